@@ -65,6 +65,7 @@ def _fork(st: State) -> State:
     s = st.fork()
     s.decisions = dict(getattr(st, "decisions", {}))  # type: ignore[attr-defined]
     s.loops = list(getattr(st, "loops", []))  # type: ignore[attr-defined]
+    s.windows = list(getattr(st, "windows", []))  # type: ignore[attr-defined]  # (loop statement, views it consumes at entry)
     return s
 
 
@@ -316,7 +317,41 @@ class Interp:
                     out.add(n.func.value.id)
         return out
 
+    def _unroll_for(self, s: ast.For, st: State) -> t.Optional[t.List[t.Tuple[State, Outcome]]]:
+        """for i in range(<constants>) with at most 16 trips: executed trip by trip on the abstract state."""
+        if s.orelse or not isinstance(s.target, ast.Name) or not (isinstance(s.iter, ast.Call) and unparse(s.iter.func) == "range" and 1 <= len(s.iter.args) <= 3 and not s.iter.keywords):
+            return None
+        try:
+            args = [self.ev.as_lin(self.ev.eval(a, st), a) for a in s.iter.args]
+        except Unsupported:
+            return None
+        if not all(a.is_const() for a in args):
+            return None
+        rng = range(*[a.const for a in args])
+        if len(rng) > 16:
+            return None
+        cur = _fork(st)
+        done: t.List[t.Tuple[State, Outcome]] = []
+        for k in rng:
+            cur.env[s.target.id] = Lin(k)
+            try:
+                outs = self.block(list(s.body), cur)
+            except Unsupported:
+                return None
+            nxt = [x for x, o in outs if o.kind in ("fall", "continue")]
+            brk = [x for x, o in outs if o.kind == "break"]
+            done += [(x, o) for x, o in outs if o.kind in ("raise", "return")]
+            if len(nxt) + len(brk) != 1:
+                return None
+            if brk:
+                return done + [(brk[0], Outcome("fall"))]
+            cur = nxt[0]
+        return done + [(cur, Outcome("fall"))]
+
     def s_For(self, s: ast.For, st: State) -> t.List[t.Tuple[State, Outcome]]:
+        un = self._unroll_for(s, st)
+        if un is not None:
+            return un
         it = self.ev.eval(s.iter, st)
         loop = LoopInfo(st.new_id(), s)
         sub = _fork(st)
@@ -451,6 +486,7 @@ class Interp:
         cloop.reads = chosen.reads[base_reads:]
         after = _fork(st)
         after.counter = [max([st.counter[0]] + [x.counter[0] for x, _o in outs])]
+        after.windows = list(getattr(st, "windows", [])) + [(s, dict(views), {n_: (o_[0], o_[1]) for n_, o_ in offsets.items()})]  # type: ignore[attr-defined]
         for name, v0 in views.items():
             v1 = chosen.env.get(name)
             if not isinstance(v1, SView):
